@@ -11,6 +11,7 @@ import (
 )
 
 const oracleText = "oracle per case (the sequence is played twice against one helios process): (i) every client call of a fault step ends - HTTP response of any status or closed/reset connection - within 2*(read+write+backend_dial+backend_read)+2 s of the case's own configuration (12 s for backend_read 1, 14 s for 2, 16 s for 3; a 101 answer counts as the end of an upgrade request, the client then closes the tunnel), no end after 20 s = wedged; " +
+	"and it ends AS an error response or a closed connection: if the client's HTTP parser sees a 2xx response that is framed as complete (Content-Length fully delivered, or chunked with its terminating chunk; a gzip content coding is decoded first, a damaged gzip stream counts as visibly incomplete) its body must be the complete body of a response a backend was scripted to give to that request (GOOD's answer, FAULTY's when its script runs to the end, or the fallback 200 given to a request the proxy's transport re-sent) - for a reset, short or stalled backend body it cannot be (not judged: HEAD, 101, client-abort steps, bodies delimited by the end of the connection); " +
 	"(ii) afterwards, polling from fresh client addresses, within 8 s (nominal 4 s, measured time is a class label) a request is answered 200 by a backend and the next 5 requests succeed too (a failure in between restarts the count: the bookkeeping of a faulted request whose client has already gone may still open the breaker or eject a backend inside the window), and /v1/backends stops reporting an ejected backend within the same 8 s; " +
 	"(iii) the process is alive, its log has no panic / fatal error / goroutine trace, /v1/backends shows every active_connections at 0 within 3 s; " +
 	"(iv) the open-fd count is back at <= baseline+20 and the second run does not end more than 2 fds above the first"
@@ -105,6 +106,13 @@ func minimise(t *testing.T, c Case, v string) (Case, Result, bool) {
 				c = cand
 			}
 		}
+		if c.Steps[i].Framing != "" {
+			cand := Case{Cfg: c.Cfg, Steps: append([]Step(nil), c.Steps...)}
+			cand.Steps[i].Framing = ""
+			if try(cand) {
+				c = cand
+			}
+		}
 		if kindOf(c.Steps[i].Kind) != "get" {
 			cand := Case{Cfg: c.Cfg, Steps: append([]Step(nil), c.Steps...)}
 			cand.Steps[i].Kind = ""
@@ -132,7 +140,17 @@ func judge(t *testing.T, name string, sub *lab.SubCheck, cases []Case, res []Res
 			lab.Problem("%s: lab could not be used for case %d (%s): %s", name, i, c, r.Harness)
 			continue
 		}
-		labels := append([]string{"strategy=" + c.Cfg.Strategy, fmt.Sprintf("steps=%d", len(c.Steps))}, r.Labels...)
+		labels := append([]string{"strategy=" + c.Cfg.Strategy, fmt.Sprintf("steps=%d", c.faults())}, r.Labels...)
+		if c.Cfg.Breaker > 0 {
+			labels = append(labels, fmt.Sprintf("breaker-interval=%ds", c.Cfg.breakerInterval()))
+		}
+		labels = append(labels, fmt.Sprintf("server-idle=%ds", c.Cfg.idle()))
+		if c.quietAfterFault() {
+			labels = append(labels, "quiet-period-after-fault")
+			if c.Cfg.Breaker > 0 && c.Cfg.breakerInterval() == 1 {
+				labels = append(labels, "quiet-period-longer-than-breaker-interval")
+			}
+		}
 		for k, on := range map[string]bool{"breaker-on": c.Cfg.Breaker > 0, "limiter-on": c.Cfg.Limiter, "passive-on": c.Cfg.Passive, "active-on": c.Cfg.Active, "plugins-on": c.Cfg.Plugins} {
 			if on {
 				labels = append(labels, k)
@@ -141,7 +159,26 @@ func judge(t *testing.T, name string, sub *lab.SubCheck, cases []Case, res []Res
 		labels = append(labels, "timeouts:"+c.Cfg.relation())
 		conc := false
 		for _, s := range c.Steps {
+			if s.Fault == Pause {
+				labels = append(labels, "pause>1s")
+				if s.PauseMs > 1000*activeEvery {
+					labels = append(labels, "pause>2s")
+				}
+				continue
+			}
 			labels = append(labels, "fault="+s.Fault, "kind="+kindOf(s.Kind))
+			if midBody(s.Fault) {
+				labels = append(labels, "mid-body-fault:"+framingOf(s.Framing))
+				if c.Cfg.Plugins {
+					labels = append(labels, "mid-body-fault-behind-gzip-plugin")
+				}
+			}
+			if s.Both {
+				labels = append(labels, "both-backends-faulty")
+			}
+			if c.Cfg.Breaker > 0 && s.Both && !abortFault(s.Fault) && s.requests() < c.Cfg.Breaker {
+				labels = append(labels, "faults-below-breaker-threshold")
+			}
 			if u := shapeOf(s.Kind, 0).upgrade != ""; u && (s.Fault == "hang-headers" || s.Fault == "slow-body") {
 				// the faults that only a timeout can end, on requests the handler timeout is not applied to
 				labels = append(labels, "timeout-ended-fault-on-upgrade-request")
@@ -186,6 +223,12 @@ func judge(t *testing.T, name string, sub *lab.SubCheck, cases []Case, res []Res
 		nontrivial := c.Nontrivial()
 		if name == "request-kinds-enumerated" && len(c.Steps) == 1 {
 			nontrivial = kindOf(c.Steps[0].Kind) != "get" // the rule of that sub-check
+		}
+		if name == "mid-body-faults-by-framing-enumerated" {
+			nontrivial = false // the rule of that sub-check: the fault reached its target
+			for _, l := range r.Labels {
+				nontrivial = nontrivial || l == "fault-delivered"
+			}
 		}
 		sub.Case(c, nontrivial, dedup(labels)...)
 		for _, s := range c.Steps {
@@ -241,6 +284,22 @@ func mix(x uint64) uint64 { // splitmix64 finaliser: a pure function of its argu
 // enumerated builds the complete single-fault table: every fault x breaker off/on x sequential/
 // concurrent (x every strategy in the thorough tier). The remaining configuration dimensions are
 // a pure function of the seed and the table index.
+// pickFraming: framing number x of the FAULTY backend's response ("" = cl; a body delimited by the end of
+// the connection cannot be short: short-body is chunked instead).
+func pickFraming(fault string, x uint64) string {
+	if !framed(fault) {
+		return ""
+	}
+	f := Framings[x%3]
+	if fault == "short-body" && f == "close" {
+		f = "chunked"
+	}
+	if f == "cl" {
+		return ""
+	}
+	return f
+}
+
 func enumerated() []Case {
 	var out []Case
 	strategies := []string{""}
@@ -262,9 +321,11 @@ func enumerated() []Case {
 					}
 					if breaker {
 						c.Cfg.Breaker = 2 + int((h>>5)%3)
+						c.Cfg.BreakerInterval = []int{1, 60}[(h>>20)&1]
 					}
 					c.Cfg.Handler, c.Cfg.BackendRead = 1+int((h>>12)%3), 1+int((h>>16)%3)
-					s := Step{Fault: f}
+					c.Cfg.Idle = []int{1, 5}[(h>>21)&1]
+					s := Step{Fault: f, Framing: pickFraming(f, (h>>22)%3)}
 					if conc {
 						s.Concurrent = 2 + int((h>>8)%7)
 					}
@@ -283,7 +344,7 @@ func TestC03SingleFaults(t *testing.T) {
 	const name = "single-faults-enumerated"
 	sub := lab.Sub(name, "complete enumeration: every single fault of {refuse, hang-headers, reset-after-headers, short-body, garbage, 5xx, slow-body (20 ms trickle then full stall mid-body), client-abort-upload, client-abort-download} "+
 		"x circuit breaker off/on x burst sequential (4 requests) / concurrent (2-8 requests) [thorough: x each of the 5 strategies], all requests plain GETs (the other request kinds: sub-check request-kinds-enumerated), against the real helios binary with all timeouts at 1-3 s and a GOOD plus a FAULTY raw TCP backend; "+
-		"the other configuration dimensions (strategy in quick, limiter, passive/active checks, plugin chain, backend order, failure_threshold 2-4, burst width, handler and backend_read timeout 1-3 s each) are a pure function of seed and table index; "+oracleText+
+		"the other configuration dimensions (strategy in quick, limiter, passive/active checks, plugin chain, backend order, failure_threshold 2-4, breaker interval 1 or 60 s, server idle timeout 1 or 5 s, burst width, handler and backend_read timeout 1-3 s each) and the framing of the faulty response (Content-Length / chunked / close-delimited) are a pure function of seed and table index; "+oracleText+
 		"; non-trivial = abort-type fault with the breaker on (the rule's other arm, >= 2 distinct fault kinds, cannot occur in single-fault cases)")
 	sub.NontrivialFloor(0.10)
 	sub.Floor("fault-delivered", 0.85)
@@ -314,9 +375,11 @@ func TestC03Sequences(t *testing.T) {
 	t.Parallel()
 	const name = "fault-sequences-sampled"
 	k := lab.Scale(3, 5)
-	sub := lab.Sub(name, fmt.Sprintf("sampled: rapid generator (seeded per case from VERIF_SEED, shard and case index; cases of a shard are drawn first and then executed by %d parallel labs): strategy x breaker off/failure_threshold 2-4 x limiter x passive x active x plugin chain x backend order x handler timeout 1-3 s x backend_read timeout 1-3 s, "+
-		"fault sequence of length 1..%d (weighted towards long) over the 9-fault alphabet, each step a sequential burst of 4 or a concurrent burst of 2-8 requests of one request kind drawn from {get, post-cl, post-chunked, head, upgrade-websocket, upgrade-h2c, expect-continue}; ", workers(), k)+oracleText+
-		"; non-trivial = >= 2 distinct fault kinds, or >= 1 client-abort fault with the breaker on")
+	sub := lab.Sub(name, fmt.Sprintf("sampled: rapid generator (seeded per case from VERIF_SEED, shard and case index; cases of a shard are drawn first and then executed by %d parallel labs): strategy x breaker off/failure_threshold 2-6 (interval_seconds 1 in 3 of 4 draws, else 60) x limiter x passive x active x plugin chain x backend order x handler timeout 1-3 s x backend_read timeout 1-3 s x server idle timeout 1 or 5 s, "+
+		"fault sequence of length 1..%d (weighted towards long) over the 9-fault alphabet, each step a sequential burst of 4, a sequential burst of 1-3 played by both backends (exactly that many faulted requests: fewer than a threshold) or a concurrent burst of 2-8 requests (1 in 4 played by both backends) "+
+		"of one request kind drawn from {get, post-cl, post-chunked, head, upgrade-websocket, upgrade-h2c, expect-continue} and one framing of the faulty response drawn from {Content-Length, chunked, close-delimited}; after each fault step, in 2 of 5 draws, a quiet period of 1.1-2.5 s of real time in which nothing is sent "+
+		"(longer than the breaker interval/timeout, unhealthy window, refill period and idle timeouts of 1 s; from 2.1 s on longer than the active-check interval of 2 s); ", workers(), k)+oracleText+
+		"; non-trivial = >= 2 distinct fault kinds, or >= 1 client-abort fault with the breaker on, or a quiet period after a fault")
 	sub.NontrivialFloor(0.50)
 	sub.Floor("fault-delivered", 0.80)
 	assumptions()
@@ -360,10 +423,14 @@ func kindCases() []Case {
 					c := Case{Cfg: Cfg{Strategy: Strategies[(uint64(i)+lab.Seed())%5], FaultyFirst: h&1 == 1, Limiter: h&2 != 0, Passive: h&4 != 0, Active: h&8 != 0, Plugins: h&16 != 0, Handler: hb[0], BackendRead: hb[1]}}
 					if h&32 != 0 {
 						c.Cfg.Breaker = 2 + int((h>>6)%3)
+						c.Cfg.BreakerInterval = []int{1, 60}[(h>>20)&1]
 					}
+					c.Cfg.Idle = []int{1, 5}[(h>>21)&1]
 					// a concurrent burst of 4-8: whatever the rotation, requests 0,1 / 2,3 / ... of the burst differ in the
-					// variants the kind and the fault alternate between (101 or 200, stall or trickle, wait for 100 or not)
-					s := Step{Fault: f, Kind: kind, Concurrent: 4 + int((h>>8)%5)}
+					// variants the kind and the fault alternate between (101 or 200, stall or trickle, wait for 100 or not);
+					// the framing of FAULTY's response rotates with the table index: the three timeout relations of one
+					// (kind, fault) cell are played with the three framings
+					s := Step{Fault: f, Kind: kind, Concurrent: 4 + int((h>>8)%5), Framing: pickFraming(f, uint64(i)+lab.Seed())}
 					if (uint64(ri)+h>>16)%4 == 0 {
 						s.Concurrent = 0
 						if c.Cfg.Strategy == "least_connections" {
@@ -385,7 +452,7 @@ func TestC03RequestKinds(t *testing.T) {
 	const name = "request-kinds-enumerated"
 	sub := lab.Sub(name, "complete enumeration: request kind {plain GET, POST with a Content-Length body, POST with a chunked body, HEAD, WebSocket handshake (Connection: Upgrade, Upgrade: websocket, Sec-WebSocket-Key/-Version), Upgrade: h2c, POST with Expect: 100-continue and a body} "+
 		"x each of the 9 faults x timeout relation {handler < backend_read, ==, >} (quick: the pair of values in 1-3 s realising the relation is a function of seed and table index; thorough: all nine pairs); "+
-		"one fault step per case, 3 in 4 a concurrent burst of 4-8 requests, else 4 sequential ones; strategy rotating by table index; breaker, limiter, passive/active checks, plugin chain, backend order: pure function of seed and table index. "+
+		"one fault step per case, 3 in 4 a concurrent burst of 4-8 requests, else 4 sequential ones; strategy and the framing of the faulty response (Content-Length / chunked / close-delimited: the three relations of one kind x fault cell get the three framings) rotating by table index; breaker (interval 1 or 60 s), limiter, passive/active checks, plugin chain, backend order, server idle timeout: pure function of seed and table index. "+
 		"A well-behaved backend answers 200, sends 100 Continue to Expect: 100-continue, and answers requests 0,1,4,5 of an upgrade burst with 101 Switching Protocols (the client then sends a Close frame / closes the tunnel) and the others with 200; "+
 		"under client-abort-upload a bodiless kind becomes a POST that keeps the kind's other fields; which status a faulted request gets is not part of the oracle; "+oracleText+
 		"; non-trivial = the request kind is not the plain GET")
@@ -415,6 +482,139 @@ func TestC03RequestKinds(t *testing.T) {
 		sub.Exhaustive()
 	}
 	judge(t, name, sub, cases, res, replay)
+}
+
+// runTable shards a complete table, runs it and judges it.
+func runTable(t *testing.T, name string, sub *lab.SubCheck, table func() []Case, width int) {
+	assumptions()
+	var rc Case
+	replay := lab.ReplayCase(name, &rc)
+	if lab.Replaying() && !replay {
+		t.Skip("replay of another sub-check")
+	}
+	var cases []Case
+	if replay {
+		cases = []Case{rc}
+	} else {
+		for i, c := range table() {
+			if i%lab.Shards() == lab.Shard() {
+				cases = append(cases, c)
+			}
+		}
+	}
+	res := runWide(t, cases, width)
+	if !replay {
+		sub.Exhaustive()
+	}
+	judge(t, name, sub, cases, res, replay)
+}
+
+// quietCases is the complete table fault x (number of faulted requests vs failure_threshold) x what
+// follows the quiet period (quick: the pause class - longer than 1 s / longer than 2 s - is a function of
+// seed and table index; thorough: both).
+func quietCases() []Case {
+	var out []Case
+	i := 0
+	counts := []struct{ n, minThr, maxThr int }{{1, 2, 3}, {2, 3, 4}, {2, 2, 2}} // 1 or 2 faulted requests below the threshold; 2 = threshold (the breaker opens)
+	for _, f := range Faults {
+		for _, cnt := range counts {
+			for _, again := range []bool{false, true} {
+				classes := []bool{mix(lab.Seed()*1000303+uint64(i))&1 == 1}
+				if lab.Thorough() {
+					classes = []bool{false, true}
+				}
+				for _, long := range classes {
+					h := mix(lab.Seed()*1000253 + uint64(i))
+					c := Case{Cfg: Cfg{Strategy: Strategies[(uint64(i)+lab.Seed())%5], FaultyFirst: h&1 == 1, Limiter: h&2 != 0, Passive: h&4 != 0, Active: h&8 != 0 || long, Plugins: h&16 != 0,
+						Breaker: cnt.minThr + int((h>>5)%uint64(cnt.maxThr-cnt.minThr+1)), BreakerInterval: 1, Idle: []int{1, 5}[(h>>21)&1],
+						Handler: 1 + int((h>>12)%3), BackendRead: 1 + int((h>>16)%3)}}
+					pause := Step{Fault: Pause, PauseMs: 1100 + int((h>>24)%500)}
+					if long {
+						pause.PauseMs = 2100 + int((h>>24)%400)
+					}
+					burst := Step{Fault: f, N: cnt.n, Both: true, Kind: Kinds[(uint64(i)/2+lab.Seed())%uint64(len(Kinds))], Framing: pickFraming(f, h>>22)}
+					c.Steps = []Step{burst, pause}
+					if again {
+						c.Steps = append(c.Steps, burst)
+					}
+					out = append(out, c)
+					i++
+				}
+			}
+		}
+	}
+	return out
+}
+
+func TestC03QuietPeriods(t *testing.T) {
+	t.Parallel()
+	const name = "quiet-periods-enumerated"
+	sub := lab.Sub(name, "complete enumeration: each of the 9 faults x number of faulted requests relative to the breaker's failure_threshold {1 request, threshold 2-3; 2 requests, threshold 3-4; 2 requests, threshold 2 = the breaker opens} "+
+		"x what follows the quiet period {the recovery probes of clause (ii) directly; the same faulted burst once more, then the probes} (quick: the pause class is a function of seed and table index; thorough: x both classes); "+
+		"every case: circuit breaker on with interval_seconds 1 and timeout_seconds 1, passive unhealthy_timeout 1, rate-limit refill 1, backend_idle 1, server idle 1 or 5, active-check interval 2 (the minimum each that internal/config accepts); "+
+		"the burst is sequential and played by BOTH backends so that exactly 1 or 2 requests are faulted whichever backend is picked; then NOTHING is sent for 1.1-1.6 s (longer than every 1 s interval) or 2.1-2.5 s (also longer than the active-check interval; active checks on); "+
+		"request kind rotating over the 7 kinds, framing of the faulty response, strategy, limiter, passive/active checks, plugin chain, backend order, handler/backend_read timeout: pure function of seed and table index; everything twice per helios process; "+oracleText+
+		"; every case is non-trivial (a quiet period after a fault)")
+	sub.NontrivialFloor(1.0)
+	sub.Floor("fault-delivered", 0.85)
+	sub.Floor("quiet-period", 1.0)
+	sub.Floor("faults-below-breaker-threshold", 0.40) // 2 of 3 count variants, minus the two client-abort faults
+	runTable(t, name, sub, quietCases, workers())
+}
+
+// midBodyCases is the complete table mid-body fault x framing of the backend's response x plugin chain
+// off/on x breaker off/on (thorough: x timeout relation).
+func midBodyCases() []Case {
+	var out []Case
+	bodyKinds := []string{"get", "post-cl", "post-chunked", "upgrade-websocket", "upgrade-h2c", "expect-continue"} // every kind whose response carries a body
+	i := 0
+	for _, f := range []string{"reset-after-headers", "short-body", "slow-body"} {
+		for _, fr := range Framings {
+			if f == "short-body" && fr == "close" {
+				continue // a body delimited by the end of the connection cannot be short
+			}
+			for _, plugins := range []bool{false, true} {
+				for _, breaker := range []bool{false, true} {
+					rels := []string{Relations[(uint64(i)+lab.Seed())%3]}
+					if lab.Thorough() {
+						rels = Relations
+					}
+					for _, rel := range rels {
+						h := mix(lab.Seed()*1000357 + uint64(i))
+						hb := TimeoutPairs[rel][(h>>40)%3]
+						c := Case{Cfg: Cfg{Strategy: Strategies[(uint64(i)+lab.Seed())%5], FaultyFirst: h&1 == 1, Limiter: h&2 != 0, Passive: h&4 != 0, Active: h&8 != 0, Plugins: plugins,
+							Idle: []int{1, 5}[(h>>21)&1], Handler: hb[0], BackendRead: hb[1]}}
+						if breaker {
+							c.Cfg.Breaker = 2 + int((h>>5)%3)
+							c.Cfg.BreakerInterval = []int{1, 60}[(h>>20)&1]
+						}
+						s := Step{Fault: f, Kind: bodyKinds[(uint64(i)+lab.Seed())%uint64(len(bodyKinds))], Concurrent: 4 + int((h>>8)%5)}
+						if fr != "cl" {
+							s.Framing = fr
+						}
+						c.Steps = []Step{s}
+						out = append(out, c)
+						i++
+					}
+				}
+			}
+		}
+	}
+	return out
+}
+
+func TestC03MidBodyFraming(t *testing.T) {
+	t.Parallel()
+	const name = "mid-body-faults-by-framing-enumerated"
+	sub := lab.Sub(name, "complete enumeration: mid-body fault {reset right after the response head, short body, slow body (3 s trickle on the odd requests of the burst, full stall after 4608 bytes on the even ones)} "+
+		"x framing of the backend's response {Content-Length, chunked, delimited by Connection: close; short body: Content-Length 600 with 500 bytes / a chunked stream that ends without its terminating chunk, after a whole chunk or inside one - a close-delimited body cannot be short} "+
+		"x plugin chain {off, logging+size_limit+gzip+headers} x circuit breaker {off, on} (quick: the timeout relation rotates with the table index; thorough: x all three relations); one concurrent burst of 4-8 requests per case, of which requests 0,1,4,5 send Accept-Encoding: gzip "+
+		"(all scripted bodies are text/plain, which the gzip plugin is configured to compress from 256 bytes on); request kind rotating over the six kinds whose response carries a body; strategy, limiter, passive/active checks, backend order, server idle, breaker interval: pure function of seed and table index; "+oracleText+
+		"; non-trivial = the fault reached its target (class fault-delivered)")
+	sub.NontrivialFloor(0.85)
+	sub.Floor("fault-delivered", 0.85)
+	sub.Floor("ends:closed", 0.80) // the cut-off response surfaced as a closed connection / visibly incomplete body
+	runTable(t, name, sub, midBodyCases, workers())
 }
 
 // trialCases is the complete table opening fault x trial fault x max_requests written/unset.
@@ -507,6 +707,8 @@ func assumptions() {
 	lab.Assume("wall-clock limits are the oracle here because the statement is about termination: 12-16 s per faulted call, derived from the configured timeouts of the case (normal: <= max(handler, backend_read, write)+0.2 s <= 3.2 s), 20 s no-progress = wedged, 8 s recovery watchdog (normal: <= 1.1 s); /v1/backends is trusted for active_connections and the healthy flag; fd counts are read from /proc/<pid>/fd with backend_idle 1 s so that pooled connections can close")
 	lab.Assume("environment canary: a violation reported while a 100 ms harness ticker showed a gap > 1 s or GET /v1/health on the admin port took > 1 s (paused VM, frozen process, CPU starvation) is not a verdict; the case is re-run up to twice (class rerun-after-environment-stall, details in notes) and is inconclusive if all three attempts were disturbed")
 	lab.Assume("concurrent schedules are sampled by real parallelism, not enumerated; faults below TCP and TLS faults are not generated")
+	lab.Assume("quiet periods are real time (time.Sleep, measured from the end of the previous step's last client call; nothing is sent meanwhile, active probes and the /v1/health canary on the admin port go on); the configured intervals they are compared with are whole seconds at the minimum internal/config accepts (1 s; active-check interval 2 s)")
+	lab.Assume("manner of ending: the client-side judgement uses net/http's response parser (http.ReadResponse: Content-Length, chunked incl. trailer section, close-delimited) and compress/gzip; the complete bodies it compares with are the scripts of the harness's own backends; every scripted body is text/plain so that the gzip plugin of the generated chain (min_size 256) applies to it")
 	lab.Assume("request kinds: the raw client sends syntactically valid HTTP/1.1 requests only (fixed Sec-WebSocket-Key, 2000-byte bodies); the well-behaved backend answers upgrade requests with 101 or 200, and Expect: 100-continue with 100 Continue before it reads the body (a backend that hangs, resets or sends garbage sends no interim response); after a 101 the client closes the tunnel, nothing is played inside it")
 }
 
@@ -549,7 +751,7 @@ func reproBodyStall(t testing.TB, kind string) (string, Result) {
 	for k := 0; k < 4; k++ {
 		id := w.nextID()
 		w.good.Expect(id, okScript("good"))
-		ex := w.faulty.Expect(id, faultScript("slow-body", 0, true))
+		ex := w.faulty.Expect(id, faultScript("slow-body", 0, true, ""))
 		o := exchange(w.proxy, id, "10.3.0.1", shapeOf(kind, 2), false, observe, complete)
 		hit := lab.SeenOf(ex) != nil
 		lab.CloseBarrier(ex)
